@@ -2,7 +2,8 @@ use std::ops::{Deref, DerefMut};
 
 use crate::nodes::{
     AssignStatement, BinaryExpression, Block, CompoundAssignStatement, DoStatement, Expression,
-    FieldExpression, IndexExpression, Prefix, Statement, Variable, VariableAssignment,
+    FieldExpression, IndexExpression, InterpolationSegment, Prefix, Statement, Variable,
+    VariableAssignment,
 };
 use crate::process::{DefaultVisitor, IdentifierTracker, NodeProcessor, NodeVisitor, ScopeVisitor};
 use crate::rules::{
@@ -80,10 +81,18 @@ impl Processor {
                     | Expression::Identifier(_)
                     | Expression::Number(_)
                     | Expression::Nil(_)
-                    | Expression::InterpolatedString(_)
                     | Expression::String(_)
                     | Expression::True(_)
                     | Expression::VariableArguments(_) => None,
+                    // the values of an interpolated string are evaluated (and converted to
+                    // strings) each time the string is built
+                    Expression::InterpolatedString(string)
+                        if !string
+                            .iter_segments()
+                            .any(|segment| matches!(segment, InterpolationSegment::Value(_))) =>
+                    {
+                        None
+                    }
                     Expression::Parenthese(parenthese)
                         if matches!(
                             parenthese.inner_expression(),
@@ -104,6 +113,7 @@ impl Processor {
                     | Expression::Function(_)
                     | Expression::If(_)
                     | Expression::Index(_)
+                    | Expression::InterpolatedString(_)
                     | Expression::Parenthese(_)
                     | Expression::Table(_)
                     | Expression::TypeCast(_)
